@@ -1,4 +1,5 @@
 """C07 on the whole-program machine: theorems in coq/props/C07.v, whole-trace correspondence, monitor(s) ['C07']"""
+from harness import watch
 from harness import machine_prop, scopecorr
 from harness.props._machine_common import TRUSTED, ASSUMPTIONS, RULE  # noqa
 
@@ -149,7 +150,7 @@ def float_tills(ctx, n):
             await (time + delay)
             log.append((tag, time.now))
         try:
-            usim.run(waiter('before', before), waiter('after', after), sleeper('half', (T - start) / 2), start=start, till=T)
+            watch.run(waiter('before', before), waiter('after', after), sleeper('half', (T - start) / 2), start=start, till=T)
         except BaseException as e:   # noqa
             ctx.fail(case, 'raised %r' % (e,), family='float-tills')
             continue
